@@ -62,6 +62,7 @@ fn rec_ops(m: &HashMap<String, String>) {
             "xform" => ops::sess_xform(sid0 + i, fam, sd, &o),
             "far" => ops::sess_far(sid0 + i, fam, sd, &o),
             "f32" => ops::sess_f32(sid0 + i, fam, sd, &o),
+            "witness" => ops::sess_witness(sid0 + i, fam, sd, &o),
             "pf32" => ops::sess_ptype(sid0 + i, fam, sd, &o, true),
             "pf64" => ops::sess_ptype(sid0 + i, fam, sd, &o, false),
             "chain" => ops::sess_chain(sid0 + i, fam, sd, &o, false),
